@@ -7,7 +7,24 @@ _NOTE = (
     "remainder of the property (stated under coverage.not_decided) is NOT decided."
 )
 
+def _entry(text, ref, tech):
+    return {"level_text": text, "design_ref": ref, "level_note": _NOTE, "technique": tech}
+
+
 CLAIMED = {
+    "C05": _entry(
+        "Static analysis decides the structural conditions of fragmentation-invariant decoding: which exceptions can escape the decoder (interprocedural may-escape sets), "
+        "strict left-to-right consumption at every return, MoreInputRequired at every input-too-short test, the carry-over/timeout protocol in Screen.parse_input, and the "
+        "trie table's special values and prefix-freeness. Event names and equality of event lists for all cuts are value properties and are not decided (level 'other').",
+        "DESIGN.md section 3, C05; engines E3, E10, E6, E9",
+        "static analysis: interprocedural exception-escape, CFG must-pass-through on short-input tests, constant folding of the key table",
+    ),
+    "C18": _entry(
+        "Static analysis decides error discipline of AttrSpec (only AttrSpecError escapes construction), agreement of the 256/88-colour sibling implementations and tables, "
+        "hash/eq state agreement and the shape of the folded colour tables. Nearest-colour values and round-trip idempotence are value-level and not decided (level 'other').",
+        "DESIGN.md section 3, C18; engines E3, E8, E9",
+        "static analysis: exception-escape, sibling feature comparison, constant-folded table shape checks",
+    ),
     "C06": {
         "level_text": "Static analysis decides, for every widget class and every control-flow path, the cache-discipline clauses C06 depends on: write=>invalidate, "
         "memo reset, monitored-list callbacks, finalised-canvas guards, fresh-receiver typestate, cache-key agreement of the render/rows wrappers, walker signal link and the "
